@@ -216,6 +216,8 @@ func TestVerifStyle(t *testing.T) {
 		b := &verifBuilder{rng: rng, next: 0x4e00, ids: map[rune]string{}, expect: map[string]*verifExpect{}, spaces: verifSpaces(rng)}
 		var text string
 		ops := []string{}
+		order := []string{}
+		checkOrder := false
 		panicked, what := verifkit.Try(func() {
 			if in.Deep > in.Depth && i%5 == 4 {
 				/* seven to `deep` style functions around one run of text */
@@ -223,6 +225,23 @@ func TestVerifStyle(t *testing.T) {
 				text, _ = b.expr(7 + rng.Intn(in.Deep-6))
 			} else {
 				text, _ = b.expr(1 + rng.Intn(in.Depth))
+			}
+			if i%3 == 0 && !strings.Contains(text, "\n") {
+				/* wrapped at a width nothing reaches: every character stays, in its place, with its attributes - the
+				   blanks of every kind included (unless the text ends in one: white space at the end of a line may go) */
+				before := verifkit.Toks(text, b.ids)
+				for _, tok := range before {
+					if tok.Id != "" {
+						order = append(order, tok.Id)
+					}
+				}
+				cells := verifkit.Cells(text)
+				if len(cells) > 0 && cells[len(cells)-1].K == "g" && len(order) > 0 {
+					text = ansi.Wrap(text, 100000)
+					ops = append(ops, "WrapWide")
+					checkOrder = true
+					return
+				}
 			}
 			for k := rng.Intn(4); k > 0; k-- {
 				var op string
@@ -235,8 +254,12 @@ func TestVerifStyle(t *testing.T) {
 				"w": 0, "h": 0, "expect": b.expect, "ops": ops, "panic": what})
 			continue
 		}
-		out.Emit(verifkit.M{"ev": "out", "kind": "styled", "chk": []string{"noctl", "neutral", "attrs"},
-			"toks": verifkit.Toks(text, b.ids), "w": 0, "h": 0, "expect": b.expect, "ops": ops, "raw": text})
+		chk := []string{"noctl", "neutral", "attrs"}
+		if checkOrder {
+			chk = append(chk, "glyphs")
+		}
+		out.Emit(verifkit.M{"ev": "out", "kind": "styled", "chk": chk,
+			"toks": verifkit.Toks(text, b.ids), "w": 0, "h": 0, "expect": b.expect, "order": order, "ops": ops, "raw": text})
 	}
 	/* styling from several goroutines at once (posts of a page are built side by side): every text keeps its own
 	   characters, in order, with their own attributes */
